@@ -164,6 +164,9 @@ OPTSETS = {
     "project-copy-subdir": dict(page_dir="pages", copy_subdir="pages/img"),
     # a real preprocessor run on a .F90 file, with macro definitions that hold characters a shell would interpret
     "preprocess-macros": dict(preprocess="true", preprocessor="cpp -traditional-cpp -E -D__GFORTRAN__", macro="TOO_MANY=n>100\n       POINTS_TO==>\n       BOTH=a&&b;c"),
+    # the documentation will be served from / copied to a local directory that already exists; own templates
+    "externalize+local-url": dict(externalize="true", project_url="{root}/sibling/keep"),
+    "own-templates": dict(html_template_dir="tmpl"),
     "nosrc": dict(incl_src="false"),
     "externalize": dict(externalize="true"),
     "graphs": dict(graph="true", graph_dir="{graph_dir}", parallel="0"),
@@ -199,6 +202,11 @@ def make_sandbox(placement, optset=None):
         os.symlink("build/generated", root / "proj" / "src")
     if PLACEMENTS[placement][2] == "vendor":
         fordrun.write_tree(root, {"proj/docs/vendor/lib/vend.f90": "module vend\n!! vendored\nend module vend\n", "proj/docs/keep.txt": "keep\n"})
+    if optset == "own-templates":
+        # a template directory of the user's own (it shadows one of FORD's templates)
+        import ford as _ford
+        tdir = os.path.join(os.path.dirname(_ford.__file__), "templates")
+        fordrun.write_tree(root, {"proj/tmpl/search.html": open(os.path.join(tdir, "search.html")).read()})
     if optset == "preprocess-macros":
         fordrun.write_tree(root, {"proj/src/uses_macro.F90": "module uses_macro\n!! preprocessed\n#ifdef TOO_MANY\ninteger :: big\n#endif\ninteger :: w\nend module uses_macro\n"})
     if PLACEMENTS[placement][2] == "stale-link":
@@ -247,7 +255,7 @@ def run_ford(root, placement, optset, fail_at):
     src_spec = more[0] if more else "src"
     out_spec = out_spec.format(root=root)
     graph_spec = graph_spec.format(root=root)
-    opts = {k: v.format(graph_dir=graph_spec) for k, v in OPTSETS[optset].items()}
+    opts = {k: v.format(graph_dir=graph_spec, root=root) if "{" in v else v for k, v in OPTSETS[optset].items()}
     lines = ["project: sandbox", f"src_dir: {src_spec}", f"output_dir: {out_spec}", "preprocess: false", "search: false", "creation_date: DATE", "year: 2000"]
     for k, v in opts.items():
         lines = [l for l in lines if not l.startswith(k + ":")] + [f"{k}: {v}"]
@@ -408,10 +416,10 @@ def main(tier, replay_path=None):
     t0 = time.time()
     core.use_repo()
     if tier == "quick":
-        combos = [(p, o) for p in PLACEMENTS for o in ("default",)] + [(p, o) for p in PLACEMENTS if PLACEMENTS[p][3] for o in ("force", "force+pages")] + [(p, "everything") for p in ("sibling", "via-symlink", "dotdot", "stale-output", "stale-output-page-link")] + [("stale-output-page-link", "pages"), ("inside-src", "preprocess-macros")] + \
+        combos = [(p, o) for p in PLACEMENTS for o in ("default",)] + [(p, o) for p in PLACEMENTS if PLACEMENTS[p][3] for o in ("force", "force+pages")] + [(p, "everything") for p in ("sibling", "via-symlink", "dotdot", "stale-output", "stale-output-page-link")] + [("stale-output-page-link", "pages"), ("inside-src", "preprocess-macros"), ("dotdot", "externalize+local-url"), ("nested-new", "own-templates")] + \
                  [("sibling", o) for o in OPTSETS] + [(p, o) for p in ("nested-new", "dotdot", "inside-src") for o in ("pages-outside", "pages-outside-abs", "copy-subdir-outside", "copy-subdir-outside-project")] + [(p, o) for p in PLACEMENTS if p.startswith("graphdir-") for o in ("graphs", "everything")]
         fault_combos = [("graphdir-is-src", "graphs"), ("sibling", "default"), ("via-symlink", "everything"), ("stale-output", "default"), ("inside-src", "assets"), ("dotdot", "pages"),
-                        ("sibling", "project-copy-subdir")]
+                        ("sibling", "project-copy-subdir"), ("stale-output-page-link", "pages")]
     else:
         combos = [(p, o) for p in PLACEMENTS for o in OPTSETS]
         fault_combos = [(p, o) for p in PLACEMENTS if not PLACEMENTS[p][3] for o in ("default", "assets", "pages", "project-copy-subdir", "externalize", "graphs", "everything")]
